@@ -756,7 +756,7 @@ func optionFieldOf(v ssa.Value) string {
 func init() {
 	register(&Rule{
 		ID: "LEN-NARROW", Props: []string{"C11", "C13", "C17", "C18", "C03", "C04"}, Floor: 0,
-		Doc: "no length of a key (len(x), possibly through min/arithmetic) is converted to an integer type of 16 bits or fewer without a bound check on that length: a key of 65536 bytes or more would be stored with a length taken modulo 65536 (lookups miss it, iteration returns truncated keys, the two parts of a composite key cannot be separated)",
+		Doc: "no length of a key (len(x), possibly through min/arithmetic) is converted to an integer type of 16 bits or fewer without a bound check on that length: a key of 65536 bytes or more would be stored with a length taken modulo 65536 (lookups miss it, iteration returns truncated keys, the two parts of a composite key cannot be separated); no 16-bit arithmetic on prefix lengths in package lpm; no typed integer encoder of package index converts its argument to a narrower integer type (index.Int keeps all 64 bits)",
 		Run: ruleLenNarrow,
 	})
 }
